@@ -2,6 +2,7 @@
 import ast
 import copy
 import re
+import sys
 from typing import List, Optional, Tuple, Union, cast
 
 from func_adl.ast.call_stack import argument_stack, stack_frame
@@ -32,6 +33,10 @@ def arg_name():
     return n
 
 
+# The longest decimal number int() / str() handle (0: no limit)
+_max_digits = getattr(sys, "get_int_max_str_digits", lambda: 0)() or sys.maxsize
+
+
 def reserve_arg_names(a: ast.AST):
     "Move the counter past every name of the form `arg_N` that `a` already uses"
     global argument_var_counter
@@ -39,8 +44,8 @@ def reserve_arg_names(a: ast.AST):
         name = (
             node.id if isinstance(node, ast.Name) else node.arg if isinstance(node, ast.arg) else ""
         )
-        # (the counter never gets anywhere near 18 digits: a longer number cannot collide)
-        if re.fullmatch("arg_[0-9]{1,18}", name):
+        # (a number Python refuses to convert is one the counter cannot be formatted as either)
+        if re.fullmatch("arg_[0-9]+", name) and len(name) - 4 <= _max_digits:
             argument_var_counter = max(argument_var_counter, int(name[4:]) + 1)
 
 
